@@ -436,6 +436,8 @@ class Interp:
                         elif al.name == "weakref":
                             found = Namespace("weakref", {"WeakKeyDictionary": Builtin("WeakKeyDictionary", lambda *a: {}), "WeakValueDictionary": Builtin("WeakValueDictionary", lambda *a: {}),
                                                           "WeakSet": Builtin("WeakSet", lambda *a: set()), "ref": Builtin("weakref.ref", lambda o, *a: Builtin("ref()", lambda: o))})
+                        elif al.name == "re":
+                            found = self._re_namespace()
                         elif al.name == "copy":
                             found = Namespace("copy", {"copy": Builtin("copy.copy", self._copy_shallow), "deepcopy": Builtin("copy.deepcopy", self._copy_deep)})
                         elif al.name == "math":
@@ -501,6 +503,8 @@ class Interp:
                             found = Builtin("namedtuple", _nt)
                         elif st.module == "collections" and al.name == "OrderedDict":
                             found = Builtin("OrderedDict", lambda *a, **k: dict(*a, **k))
+                        elif st.module == "re" and al.name in self._re_namespace().table:
+                            found = self._re_namespace().table[al.name]
                         elif st.module == "copy" and al.name in ("copy", "deepcopy"):
                             found = Builtin(f"copy.{al.name}", self._copy_shallow if al.name == "copy" else self._copy_deep)
                         elif st.module == "itertools" and al.name == "count":
@@ -1075,6 +1079,70 @@ class Interp:
                 return
             raise AnalysisError(f"peval: unsupported with-statement `{norm(st)[:80]}`")
         raise AnalysisError(f"peval: unsupported statement {type(st).__name__}: `{norm(st)[:80]}`")
+
+    def _re_namespace(self):
+        """the `re` module on concrete strings: compiled patterns and match objects are wrapped, everything is done
+        by Python's own re (patterns and subjects must be concrete: anything else is a gap of the model)"""
+        if getattr(self, "_re_ns", None) is not None:
+            return self._re_ns
+        import re as _re
+
+        def conc(*xs):
+            for x in xs:
+                if not isinstance(x, (str, int, type(None))):
+                    raise AnalysisError(f"peval: re with a non-concrete argument {x!r}")
+
+        def wrap_match(mo):
+            if mo is None:
+                return None
+            o = Obj("re.Match", {}, name="re.Match")
+            for nm in ("group", "groups", "groupdict", "start", "end", "span", "expand"):
+                o.attrs[nm] = Builtin(f"Match.{nm}", (lambda f: lambda *a, **k: _native(f, a, k))(getattr(mo, nm)))
+            o.attrs["__getitem__"] = Builtin("Match.__getitem__", lambda k: _native(mo.__getitem__, (k,), {}))
+            o.attrs["string"], o.attrs["lastindex"], o.attrs["lastgroup"] = mo.string, mo.lastindex, mo.lastgroup
+            o.attrs["__bool__"] = Builtin("Match.__bool__", lambda: True)
+            return o
+
+        def wrap_pattern(pt):
+            o = Obj("re.Pattern", {"pattern": pt.pattern, "flags": pt.flags, "groups": pt.groups}, name="re.Pattern")
+            for nm in ("search", "match", "fullmatch"):
+                o.attrs[nm] = Builtin(f"Pattern.{nm}", (lambda f: lambda s_, *a: (conc(s_, *a), wrap_match(f(s_, *a)))[1])(getattr(pt, nm)))
+            for nm in ("findall", "split"):
+                o.attrs[nm] = Builtin(f"Pattern.{nm}", (lambda f: lambda s_, *a: (conc(s_, *a), f(s_, *a))[1])(getattr(pt, nm)))
+            o.attrs["finditer"] = Builtin("Pattern.finditer", lambda s_, *a: (conc(s_, *a), [wrap_match(x) for x in pt.finditer(s_, *a)])[1])
+
+            def sub(repl, s_, count=0, _n=False):
+                conc(s_, count)
+                if not isinstance(repl, str):
+                    fn = repl
+                    repl = lambda mo: self.call(fn, [wrap_match(mo)], {})
+                return (pt.subn if _n else pt.sub)(repl, s_, count)
+
+            o.attrs["sub"] = Builtin("Pattern.sub", sub)
+            o.attrs["subn"] = Builtin("Pattern.subn", lambda repl, s_, count=0: sub(repl, s_, count, True))
+            return o
+
+        def comp(pattern, flags=0):
+            if isinstance(pattern, Obj) and pattern.kind == "re.Pattern":
+                return pattern
+            conc(pattern, flags)
+            try:
+                return wrap_pattern(_re.compile(pattern, flags))
+            except _re.error as e:
+                raise PyExc("re.error", str(e))
+
+        def via(nm):
+            return Builtin(f"re.{nm}", lambda pattern, *a, flags=0, **k: self.call(self.getattr(comp(pattern, flags), nm), list(a), k))
+
+        tbl = {nm: via(nm) for nm in ("search", "match", "fullmatch", "findall", "finditer", "split")}
+        tbl["sub"] = Builtin("re.sub", lambda pattern, repl, s_, count=0, flags=0: self.call(self.getattr(comp(pattern, flags), "sub"), [repl, s_, count], {}))
+        tbl["subn"] = Builtin("re.subn", lambda pattern, repl, s_, count=0, flags=0: self.call(self.getattr(comp(pattern, flags), "subn"), [repl, s_, count], {}))
+        tbl["compile"] = Builtin("re.compile", comp)
+        tbl["escape"] = Builtin("re.escape", lambda s_: (conc(s_), _re.escape(s_))[1])
+        for fl in ("IGNORECASE", "I", "MULTILINE", "M", "DOTALL", "S", "VERBOSE", "X", "ASCII", "A"):
+            tbl[fl] = int(getattr(_re, fl))
+        self._re_ns = Namespace("re", tbl)
+        return self._re_ns
 
     def _copy_shallow(self, v):
         """copy.copy: a new object with the same attribute values / a new container with the same elements"""
@@ -1915,7 +1983,14 @@ class Interp:
             shape = list(I.iterate(shape))
             if not all(isinstance(s, int) for s in shape):
                 return SArr([0] * len(shape), sym=f"empty{I._fresh()}")
-            return SArr(shape)
+            a = SArr(shape)
+            # a freshly made array is C-contiguous: its strides follow from the item size of its dtype
+            nm = dtype if isinstance(dtype, str) else dtype.attrs.get("name") if isinstance(dtype, Obj) and dtype.kind == "dtype" else "float64" if dtype is None else None
+            nm = {"i8": "int64", "f8": "float64", "i4": "int32", "f4": "float32", "u8": "uint64", "u4": "uint32", "i2": "int16", "u2": "uint16", "i1": "int8", "u1": "uint8"}.get(nm, nm)
+            sizes = {"float64": 8, "float32": 4, "int64": 8, "uint64": 8, "int32": 4, "uint32": 4, "int16": 2, "uint16": 2, "int8": 1, "uint8": 1}
+            if nm in sizes:
+                a.itemsize = sizes[nm]
+            return a
 
         def _seq_items(e):
             """the items of e if numpy's array coercion would take e apart (a sequence), else None"""
